@@ -10,6 +10,7 @@ import (
 	"math/big"
 	"sort"
 	"strings"
+	"sync"
 )
 
 // V is a JSON value that keeps member order and duplicate keys (what a peer can put on the wire).
@@ -220,7 +221,34 @@ func (v V) Dup(k string, x V, before bool) V {
 }
 
 // ParseV reads the first JSON value of raw the way a Go server's json.Decoder does (ok=false: the decoder fails).
+// ParseV memoises large bodies (the same 2 MiB / 5 MiB inputs are parsed for every server and every line they produce).
+type parseKey struct {
+	p     *byte
+	n     int
+	whole bool
+}
+type parseVal struct {
+	v  V
+	ok bool
+}
+
+var parseMemo sync.Map
+
 func ParseV(raw []byte, whole bool) (V, bool) {
+	if len(raw) < 64<<10 {
+		return parseV(raw, whole)
+	}
+	k := parseKey{&raw[0], len(raw), whole}
+	if x, ok := parseMemo.Load(k); ok {
+		pv := x.(parseVal)
+		return pv.v, pv.ok
+	}
+	v, ok := parseV(raw, whole)
+	parseMemo.Store(k, parseVal{v, ok})
+	return v, ok
+}
+
+func parseV(raw []byte, whole bool) (V, bool) {
 	var rm json.RawMessage
 	if whole {
 		if err := json.Unmarshal(raw, &rm); err != nil {
